@@ -73,6 +73,12 @@ iter:
 					break iter
 				}
 				pargs[i] = ta[n]
+			case *slip.Vector:
+				al := ta.AsList() // only the elements in front of a fill pointer
+				if len(al) <= n {
+					break iter
+				}
+				pargs[i] = al[n]
 			case slip.VectorLike:
 				if ta.Length() <= n { // Length() for vectors is the same as Dimensions()[0]
 					break iter
